@@ -101,8 +101,13 @@ def analyse_setter(prog, cls, name):
     st_ = cls.setters.get(name)
     if st_ is None:
         raise NotDecided("setter %s missing" % name)
-    d = desugar(st_.node)
+    from sa.inline import expand
+
+    d = expand(prog, st_, local_only=True)   # extracted edge-moving helpers are read in place
     elem, env0, flipname, fields = _preamble(d)
+    # every local name that stands for the element (the setter's own and those of inlined helpers)
+    elems = {n_.targets[0].id for n_ in ast.walk(d) if isinstance(n_, ast.Assign) and len(n_.targets) == 1 and isinstance(n_.targets[0], ast.Name)
+             and dotted(n_.value) == "self._element"} | {"self._element"}
     if not (elem and flipname and set(fields) == {"pos", "ext", "flip"} and any(p == Poly.sym("new") for p in env0.values())):
         raise NotDecided("setter %s: preamble `x, cx, flip, new = elm.x, elm.cx, elm.flip, int(value)` not recognised" % name)
     results = []
@@ -157,7 +162,7 @@ def analyse_setter(prog, cls, name):
                 core, pol = t, outcome
                 while isinstance(core, ast.UnaryOp) and isinstance(core.op, ast.Not):
                     core, pol = core.operand, not pol
-                if dotted(core) in (flipname, "%s.%s" % (elem, fields["flip"])):
+                if dotted(core) == flipname or dotted(core) in {"%s.%s" % (e_, fields["flip"]) for e_ in elems}:
                     if flip0 is None and state["flip"] is None:
                         flip0 = pol
                         state["flip"] = pol
@@ -177,12 +182,14 @@ def analyse_setter(prog, cls, name):
             if isinstance(s, ast.Assign) and len(s.targets) == 1:
                 t = s.targets[0]
                 if isinstance(t, ast.Name):
-                    if t.id in (elem, flipname) or t.id in env0:
+                    if t.id in elems or t.id == flipname or t.id in env0:
                         continue
                     env[t.id] = ev(s.value, env, absmap)
-                elif isinstance(t, ast.Attribute) and dotted(t.value) in (elem, "self._element"):
+                elif isinstance(t, ast.Attribute) and dotted(t.value) in elems:
                     if t.attr == fields["flip"]:
                         v = s.value.value if isinstance(s.value, ast.Constant) else None
+                        if isinstance(s.value, ast.UnaryOp) and isinstance(s.value.op, ast.Not) and dotted(s.value.operand) == flipname and flip0 is not None:
+                            v = not flip0   # `flip = not <initial flip>` on a path that has decided the initial value
                         if not isinstance(v, bool):
                             raise NotDecided("flip assigned a non-constant")
                         state["flip"] = v
